@@ -85,13 +85,46 @@ def build(v, memo=None):
 
 
 # ------------------------------------------------------------------ spec twins shared by adaptors
+HUGE = 10 ** 5000       # an integer str() refuses to write (sys.get_int_max_str_digits() is 4300 by default)
+
+
+def has_huge(v):
+    if isinstance(v, bool):
+        return False
+    if isinstance(v, int):
+        return abs(v) >= 10 ** 4300
+    if isinstance(v, dict):
+        return any(has_huge(x) for x in v.values())
+    if isinstance(v, (list, tuple)):
+        return any(has_huge(x) for x in v)
+    return False
+
+
+def safe(v):
+    """repr for messages: integers beyond the digit limit cannot be printed"""
+    if isinstance(v, bool):
+        return repr(v)
+    if isinstance(v, int):
+        return '<int of %d bits>' % v.bit_length() if abs(v) >= 10 ** 4300 else repr(v)
+    if isinstance(v, dict):
+        return '{' + ', '.join('%r: %s' % (k, safe(x)) for k, x in v.items()) + '}'
+    if isinstance(v, list):
+        return '[' + ', '.join(safe(x) for x in v) + ']'
+    if isinstance(v, tuple):
+        return '(' + ', '.join(safe(x) for x in v) + ',)'
+    return repr(v)
+
+
 def py_fmt(match, target):
-    """(ok, text): ok False when a referenced key is missing; None when the format string is outside wfp"""
+    """(ok, text): ok False when a referenced key is missing or its value cannot be written (an integer beyond the
+    digit limit); None when the format string is outside wfp"""
     try:
         return True, match % target
     except KeyError:
         return False, None
-    except (ValueError, TypeError):
+    except ValueError:
+        return (False, None) if has_huge(target) else (None, None)
+    except TypeError:
         return None, None
 
 
@@ -128,11 +161,11 @@ def role_case(match, target, creds):
     out = outcome(_checks.RoleCheck('role', match), target, creds, None)
     if (t0, c0) != (target, creds):
         # native reading of the frame: the contract modifies nothing the caller passed in
-        return True, 'role:%s wrote into its arguments: target %r -> %r, creds %r -> %r' % (match, t0, target, c0, creds)
+        return True, 'role:%s wrote into its arguments: target %s -> %s, creds %s -> %s' % (match, safe(t0), safe(target), safe(c0), safe(creds))
     if out[0] == 'exc':
-        return True, 'role:%s raised %s for target=%r creds=%r' % (match, out[1], target, creds)
+        return True, 'role:%s raised %s for target=%s creds=%s' % (match, out[1], safe(target), safe(creds))
     if bool(out[1]) != exp:
-        return True, 'role:%s returned %r, expected %r for target=%r creds=%r' % (match, out[1], exp, target, creds)
+        return True, 'role:%s returned %r, expected %r for target=%s creds=%s' % (match, out[1], exp, safe(target), safe(creds))
     return False, 'agrees (%r)' % (out[1],)
 
 
@@ -160,9 +193,16 @@ def generic_expected(kind, match, target, creds):
         return False
     try:
         lit = ast.literal_eval(kind)
-        return text == str(lit)
     except (ValueError, SyntaxError, MemoryError, RecursionError, TypeError):
-        pass
+        lit = None
+        is_lit = False
+    else:
+        is_lit = True
+    if is_lit:
+        try:
+            return text == str(lit)
+        except ValueError:      # a literal str() cannot write is read as a path, like any other non-literal
+            pass
     return py_walk(creds, kind.split('.'), text)
 
 
@@ -175,11 +215,11 @@ def generic_case(kind, match, target, creds):
     t0, c0 = copy.deepcopy(target), copy.deepcopy(creds)
     out = outcome(_checks.GenericCheck(kind, match), target, creds, None)
     if (t0, c0) != (target, creds):
-        return True, '%s:%s wrote into its arguments: target %r -> %r, creds %r -> %r' % (kind, match, t0, target, c0, creds)
+        return True, '%s:%s wrote into its arguments: target %s -> %s, creds %s -> %s' % (kind, match, safe(t0), safe(target), safe(c0), safe(creds))
     if out[0] == 'exc':
-        return True, '%s:%s raised %s for target=%r creds=%r' % (kind, match, out[1], target, creds)
+        return True, '%s:%s raised %s for target=%s creds=%s' % (kind, match, out[1], safe(target), safe(creds))
     if bool(out[1]) != exp:
-        return True, '%s:%s returned %r, expected %r for target=%r creds=%r' % (kind, match, out[1], exp, target, creds)
+        return True, '%s:%s returned %r, expected %r for target=%s creds=%s' % (kind, match, out[1], exp, safe(target), safe(creds))
     return False, 'agrees (%r)' % (out[1],)
 
 
@@ -213,9 +253,9 @@ def n_find(inp):
     exp = py_walk(tv, segs, match)
     out = outcome(_checks.GenericCheck('k', 'm')._find_in_dict, tv, list(segs), match)
     if out[0] == 'exc':
-        return True, '_find_in_dict(%r, %r, %r) raised %s' % (tv, segs, match, out[1])
+        return True, '_find_in_dict(%s, %r, %r) raised %s' % (safe(tv), segs, match, out[1])
     if bool(out[1]) != exp:
-        return True, '_find_in_dict(%r, %r, %r) returned %r, expected %r' % (tv, segs, match, out[1], exp)
+        return True, '_find_in_dict(%s, %r, %r) returned %r, expected %r' % (safe(tv), segs, match, out[1], exp)
     return False, 'agrees'
 
 
